@@ -43,6 +43,14 @@ Proof.
 Qed.
 Print Assumptions acl_matches_total_char.
 
+(** [HopPredicate::is_wildcard] -- which decides in [AclPolicy::parse] whether an entry "must be
+    the last entry" -- holds exactly for the predicates that every hop satisfies (the
+    [pred_wildb] oracle used on ACL texts in [Cases]). *)
+Theorem wildcard_pred_iff_matches_all :
+  forall p : pred, pred_is_wildcard p = true <-> forall h, hop_sat p h.
+Proof. intros p. rewrite pred_wildb_model. apply pred_wildb_iff. Qed.
+Print Assumptions wildcard_pred_iff_matches_all.
+
 (** for hops of real paths (non-zero ISD and AS) the predicate semantics used above is the
     documented one: 0 in the predicate's ISD / AS / interface is a wildcard, [Either]
     matches ingress or egress, [Both] matches ingress and egress *)
